@@ -265,6 +265,21 @@ pub static ABANDONED_TOOL_CALLS: std::sync::atomic::AtomicU64 = std::sync::atomi
 /// helper thread under a limit of max(20 s, 25 x the time the reference needed): the crate's code
 /// cannot be interrupted, and a call that blows up must not turn the whole run inconclusive.
 pub fn check_scale_with(prefix: &str, case: &ScaleCase, ref_budget: Duration, extra: ExtraCheck) -> Verdict {
+    // the whole case (graph construction, reference evaluator - whose budget is only tested between
+    // BDD operations -, tool calls) under one limit that stays below the engine's per-case watchdog
+    let total = if ref_budget < Duration::from_secs(4) {
+        (ref_budget * 30).clamp(Duration::from_secs(15), Duration::from_secs(100))
+    } else {
+        (ref_budget * 20).min(Duration::from_secs(600))
+    };
+    let (p, c) = (prefix.to_string(), case.clone());
+    match with_time_limit(total, move || check_scale_inner(&p, &c, ref_budget, extra)) {
+        Some(v) => v,
+        None => Verdict::Discard("scale-case-exceeded-its-time-limit"),
+    }
+}
+
+fn check_scale_inner(prefix: &str, case: &ScaleCase, ref_budget: Duration, extra: ExtraCheck) -> Verdict {
     let bn = match case.network() {
         Ok(b) => b,
         Err(r) => return Verdict::Discard(r),
